@@ -40,6 +40,20 @@ pub fn wild_finite() -> BoxedStrategy<f32> {
     .boxed()
 }
 
+/// tiny magnitudes of either sign: every binade of the subnormal range and the first normal binades (log-uniform over
+/// the bit patterns 1 ..= 0x00ff_ffff), the smallest three subnormals over-weighted
+pub fn tiny_f32() -> BoxedStrategy<f32> {
+    prop_oneof![
+        2 => (0u32..24, any::<u32>(), any::<bool>()).prop_map(|(k, low, neg)| {
+            let bits = (1u32 << k) | (low & ((1u32 << k) - 1));
+            let v = f32::from_bits(bits);
+            if neg { -v } else { v }
+        }),
+        1 => (1u32..=3, any::<bool>()).prop_map(|(b, neg)| if neg { -f32::from_bits(b) } else { f32::from_bits(b) }),
+    ]
+    .boxed()
+}
+
 pub fn non_finite() -> BoxedStrategy<f32> {
     prop_oneof![
         Just(f32::NAN),
